@@ -93,6 +93,9 @@ func createVM(options []Option) (*VirtualMachine, error) {
 func (vm *VirtualMachine) applyOptions(options []Option) error {
 	vm.runMutex.Lock()
 	defer vm.runMutex.Unlock()
+	// (simulator: no scheduling points while runMutex is held)
+	verifhook.Yield("critical.enter")
+	defer verifhook.Yield("critical.exit")
 
 	if vm.running {
 		return fmt.Errorf("vm is already running")
